@@ -131,7 +131,12 @@ static void verif_move(void* d, void* s, u64 n)
 {
     if (n == 8) *(u64*) d = *(u64*) s;
     else if (n == 4) *(u32*) d = *(u32*) s;
-    else if (n == 16) *(u128*) d = *(u128*) s;
+    else if (n == 16)
+    {
+        u64 a = ((u64*) s)[0], b = ((u64*) s)[1]; /* not necessarily 16-byte aligned */
+        ((u64*) d)[0] = a;
+        ((u64*) d)[1] = b;
+    }
     else if (n == 2) *(u16*) d = *(u16*) s;
     else if (n == 1) *(u8*) d = *(u8*) s;
     else memmove(d, s, n);
@@ -154,12 +159,20 @@ static void* verif_alloc(u64 n)
 static void verif_dealloc(void* p)
 {
     if (!p) return;
+#ifdef __CPROVER__
+    /* double delete: the solver chooses one freed address to watch; any later free of it is a violation
+       (one comparison per free instead of a list scan; freed memory is never handed out again) */
+    static void* verif_watched;
+    _Bool nondet_bool(void);
+    VERIF_RT_ASSERT(p != verif_watched, "double free / double delete");
+    if (nondet_bool()) verif_watched = p;
+#else
     for (int i = 0; i < VERIF_FREED_MAX; i++)
         if (i < verif_nfreed) VERIF_RT_ASSERT(verif_freed[i] != p, "double free / double delete");
     if (verif_nfreed < VERIF_FREED_MAX) verif_freed[verif_nfreed] = p;
     verif_nfreed++;
+#endif
     verif_live_allocs--;
-    /* memory is not handed back: freed addresses stay distinct (so the double-free list is exact) */
 }
 void* verif_rt__Znwm(u64 n) { return verif_alloc(n); }
 void* verif_rt__Znam(u64 n) { return verif_alloc(n); }
@@ -199,6 +212,12 @@ u32 verif_rt_memcmp(void* a, void* b, u64 n)
     for (u64 i = 0; i < n; i++)
         if (((u8*) a)[i] != ((u8*) b)[i]) return ((u8*) a)[i] < ((u8*) b)[i] ? (u32) -1 : 1;
     return 0;
+}
+u32 verif_rt_strcmp(void* a, void* b)
+{
+    u64 i = 0;
+    while (((u8*) a)[i] && ((u8*) a)[i] == ((u8*) b)[i]) i++;
+    return ((u8*) a)[i] == ((u8*) b)[i] ? 0 : (((u8*) a)[i] < ((u8*) b)[i] ? (u32) -1 : 1);
 }
 u32 verif_rt_bcmp(void* a, void* b, u64 n) { return verif_rt_memcmp(a, b, n); }
 void verif_rt_abort(void)
@@ -257,7 +276,7 @@ void verif_rt__ZSt20__throw_system_errori(u32 e)
 }
 
 /* ---- exceptions (Itanium ABI surface, single in-flight exception per thread slot) ---------- */
-#define VERIF_EXC_MAX 8
+#define VERIF_EXC_MAX 4
 static void* verif_exc_objs[VERIF_EXC_MAX];
 static void* verif_exc_types[VERIF_EXC_MAX];
 static int verif_exc_n;
@@ -285,6 +304,21 @@ void verif_rt___cxa_throw(void* o, void* ti, void* dtor)
     VERIF_EXC_TYPE = ti;
     VERIF_EXC_PENDING = 1;
 }
+void* verif_rt___cxa_init_primary_exception(void* o, void* ti, void* dtor)
+{
+    /* std::make_exception_ptr (libstdc++ >= 12): the exception object is created without being thrown */
+    VERIF_RT_ASSERT(verif_exc_n < VERIF_EXC_MAX, "exception model: too many exceptions created");
+    if (verif_exc_n < VERIF_EXC_MAX)
+    {
+        verif_exc_objs[verif_exc_n] = o;
+        verif_exc_types[verif_exc_n] = ti;
+        verif_exc_n++;
+    }
+    verif_live_allocs--;
+    return o;
+}
+void verif_rt__ZNSt15__exception_ptr13exception_ptrC1EPv(void* self, void* o) { *(void**) self = o; }
+void verif_rt__ZNSt9exceptionD2Ev(void* self) {}
 void* verif_rt___cxa_begin_catch(void* o)
 {
     int n = verif_ncaught[verif_cur];
@@ -327,7 +361,7 @@ static int verif_bytes_differ(void* a, void* b, u64 n)
 {
     if (n == 8) return *(u64*) a != *(u64*) b;
     if (n == 4) return *(u32*) a != *(u32*) b;
-    if (n == 16) return *(u128*) a != *(u128*) b;
+    if (n == 16) return ((u64*) a)[0] != ((u64*) b)[0] || ((u64*) a)[1] != ((u64*) b)[1];
     if (n == 2) return *(u16*) a != *(u16*) b;
     if (n == 1) return *(u8*) a != *(u8*) b;
     for (u64 i = 0; i < n; i++)
